@@ -242,9 +242,10 @@ claim("C19", "other",
       "names x container names (it validates exactly the name the variant renders), the generated fast path is shown to "
       "be emitted only on paths under that condition - directly or handed to a helper as the bool it branches on - "
       "(flag initialised true, updated only by &= for every variant), the name sources (heck snake_case / PascalCase, "
-      "`Table` -> container name, rename, method, enum_def prefix/suffix) are checked structurally, the identifier "
-      "enum_def interpolates for `Table` is interpreted (backward slice of its definition) on type names including Rust "
-      "keywords with and without table_name, and every derive(Iden) expansion in the repository's test target is cross- "
+      "`Table` -> container name, rename, method, enum_def prefix/suffix) are decided by interpreting get_table_name, "
+      "table_or_snake_case, write_variant_name (over a token-list model of quote!) and the backward slices of the "
+      "identifiers enum_def interpolates (type names including Rust keywords; table_name, prefix, suffix options), with "
+      "structural rules as the fallback, and every derive(Iden) expansion in the repository's test target is cross- "
       "checked against an independent snake_case.",
       "Does not decide the transformation for all input programs beyond these guards and sources; heck is trusted (and "
       "cross-checked on the in-repo expansions). Helper attributes are read from source text for the witness cross- "
